@@ -20,8 +20,16 @@ SqlOk(f, w)   == f.sql_out = "ok" /\ f.sql.pg_ok /\ f.sql.frame_ok /\ f.sql.ast.
 \* the parameter list
 ParamOk(f, w) == f.par_out = "ok" /\ Len(f.params) = 1 /\ f.params[1].ty = "str" /\ f.params[1].codes = w
 
+\* the quoted text as one item of a value list  f:(<the same digits bare | yy> OR "w" OR zz): three items, the middle one is that string
+ListOk(f, w)  == f.outcome = "ok" /\ f.top = "IN" /\ Len(f.items) = 3
+                 /\ f.items[2].op = "LIT" /\ f.items[2].ty = "str" /\ f.items[2].codes = w
+                 /\ f.par_out = "ok" /\ Len(f.params) = 3 /\ f.params[2].ty = "str" /\ f.params[2].codes = w
+\* (a quoted text holding * or ? is a plain string too, but the list is then no longer an IN list of plain values on the pinned tree:
+\* the clause is about lists of plain values)
+HasWild(w) == \E i \in DOMAIN w : w[i] \in {42, 63}
 C08(c) ==
-     (IF TreeOk(c.quoted, c.w)  THEN <<>> ELSE <<Fail(c, "quoted text is not that string value in the tree")>>)
+     (IF "listed" \notin DOMAIN c \/ HasWild(c.w) \/ ListOk(c.listed, c.w) THEN <<>> ELSE <<Fail(c, "quoted text as a list item is not that string value / parameter")>>)
+  \o (IF TreeOk(c.quoted, c.w)  THEN <<>> ELSE <<Fail(c, "quoted text is not that string value in the tree")>>)
   \o (IF SqlOk(c.quoted, c.w)   THEN <<>> ELSE <<Fail(c, "quoted text is not that constant in the inline SQL")>>)
   \o (IF ParamOk(c.quoted, c.w) THEN <<>> ELSE <<Fail(c, "quoted text is not that parameter")>>)
   \o (IF ~c.esc_applicable \/ TreeOk(c.escaped, c.w) THEN <<>> ELSE <<Fail(c, "escaped bare word is not that plain value in the tree")>>)
